@@ -98,12 +98,12 @@ theorem weights_of_check (E : Env U π) (h : weightsB E.G = true) :
 theorem rhyp_prob (E : Env U Rat) (rank : UNT U → Nat) (hops : E.ops = probOps 0) (hk : E.kway = true)
     (c1 : rowsB E.G = true) (c2 : arityB E.G = true) (c3 : acyclicB E.G rank = true) (c4 : budetB E.G = true)
     (c5 : altKeysB E.G = true) (c6 : flatB E.G = true) (c7 : leafOneB E.G = true) (c8 : weightsB E.G = true)
-    (c9 : (E.G.starts.map (·.1)).Nodup) (hf : ∀ p, E.filter p = true) : RHyp E rank (fun v : Rat => 0 ≤ v) := by
+    (c9 : (E.G.starts.map (·.1)).Nodup) : RHyp E rank (fun v : Rat => 0 ≤ v) := by
   have hdet := budet_of_check E c4
   obtain ⟨hw1, hw2⟩ := weights_of_check E c8
   refine ⟨⟨GHyp.of_checks E c1 c2 hk, acyclic_of_check E rank c3, ?_, by rw [hops]; rfl,
     ualt_of_budet E hdet (altKeys_of_check E c5), flat_of_check E c6, leafOne_of_check E c7, ?_, ?_, ?_, ?_⟩,
-    sdisj_of_budet E hdet, c9, hf, ?_, ?_⟩
+    sdisj_of_budet E hdet, c9, ?_, ?_⟩
   · apply Heapq.WeakOrder.on
     rw [hops]
     constructor
